@@ -1325,7 +1325,7 @@ def replied(ln, sid):
     return any(s == sid for s, f in ln.frames) or any(s == sid for s, f in ln.meframes)
 
 
-ME_REQS = ("mesub", "meleave", "mepub", "meget")
+ME_REQS = ("mesub", "meleave", "mepub", "meget", "mesetsub")
 
 
 def silent_why(case, i, w, ln):
@@ -1431,6 +1431,40 @@ def mon_C14(case):
     return out
 
 
+# ------------------------------------------------------------------------------------------------ C11 (a session the server has logged out)
+
+def mon_C11(case):
+    """initTopicMe logs a session out when the account cannot be read. From then on (until a restart, which stands for new
+    connections) the session is not authenticated: every request is refused with 401 - a note is dropped silently, a request on
+    behalf of somebody else is refused as one from a session which is not root - and nothing at all happens because of it"""
+    out = []
+    for i, (o, ln) in enumerate(zip(case.ops, case.lines)):
+        w = o.split(" ")
+        if ln.plain is not None or len(w) < 2 or w[1] not in case.logged_out(i):
+            continue
+        if w[0] not in REQS + ME_REQS + ("note", "menote"):
+            continue
+        pre = prev_state(case, i)
+        mine = [f for sid, f in ln.frames + ln.meframes if sid == w[1]]
+        if " as=" in o:
+            want = ["ctrl 403 -"]
+            ok = mine == want
+        elif w[0] in ("note", "menote"):
+            want = []
+            ok = mine == want
+        else:
+            want = ["ctrl 401 <topic>"]
+            ok = len(mine) == 1 and mine[0].startswith("ctrl 401 ")
+        if not ok:
+            out.append((i, f"C11 `{w[0]}` from {w[1]}, which the server has logged out, answered {mine[:2]} instead of {want}"))
+        others = [(sid, f) for sid, f in ln.frames + ln.meframes if sid != w[1]]
+        if others or ln.pushes or ln.calls:
+            out.append((i, f"C11 `{w[0]}` from {w[1]}, which the server has logged out, had an effect: {others[:1]} {ln.pushes[:1]} calls={','.join(ln.calls)}"))
+        if pre is not None and state_of(ln) != state_of(pre):
+            out.append((i, f"C11 `{w[0]}` from {w[1]}, which the server has logged out, changed the state"))
+    return out
+
+
 # ------------------------------------------------------------------------------------------------ C19 (tags of group topics)
 
 def mon_C19(case):
@@ -1460,7 +1494,7 @@ def mon_C19(case):
     return out
 
 
-MONITORS = {"C19": mon_C19, "C05": mon_C05, "C04": mon_C04, "C01": mon_C01, "C02": mon_C02, "C03": mon_C03, "C06": mon_C06, "C07": mon_C07, "C08": mon_C08, "C09": mon_C09,
+MONITORS = {"C11": mon_C11, "C19": mon_C19, "C05": mon_C05, "C04": mon_C04, "C01": mon_C01, "C02": mon_C02, "C03": mon_C03, "C06": mon_C06, "C07": mon_C07, "C08": mon_C08, "C09": mon_C09,
             "C10": mon_C10, "C13": mon_C13, "C14": mon_C14}
 
 
